@@ -194,8 +194,18 @@ func (cfg *Config) PutCredential(serverAddress string, cred auth.Credential) err
 	if err != nil {
 		return fmt.Errorf("failed to marshal auth field: %w", err)
 	}
+	old, existed := cfg.authsCache[serverAddress]
 	cfg.authsCache[serverAddress] = authCfgBytes
-	return cfg.saveFile()
+	if err := cfg.saveFile(); err != nil {
+		// keep the cache in step with the file, which still has the old entry
+		if existed {
+			cfg.authsCache[serverAddress] = old
+		} else {
+			delete(cfg.authsCache, serverAddress)
+		}
+		return err
+	}
+	return nil
 }
 
 // DeleteAuthConfig deletes the corresponding credential for serverAddress.
@@ -207,8 +217,14 @@ func (cfg *Config) DeleteCredential(serverAddress string) error {
 		// no ops
 		return nil
 	}
+	old := cfg.authsCache[serverAddress]
 	delete(cfg.authsCache, serverAddress)
-	return cfg.saveFile()
+	if err := cfg.saveFile(); err != nil {
+		// the entry is still in the file: a repeated Delete must try again
+		cfg.authsCache[serverAddress] = old
+		return err
+	}
+	return nil
 }
 
 // GetCredentialHelper returns the credential helpers for serverAddress.
